@@ -408,6 +408,8 @@ func TestC14(t *testing.T) {
 	rec := ev.Get("C14")
 	rec.Rule = "stateful: a gateway with planner.NewCachedPlanner(ttl), ttl in {0, 1ns, 2ms, 1h}, and a gateway with the plain planner over one generated world (optionally with a Mutation field sharing name and signature with a Query field); operation pool built for cache-key collisions (same selection under different operation names, operation types, variable values); history of 4..14 actions: request, burst of 2..5 concurrent requests, sleep 3ms; invariant after every request: (status, canonical data, error multiset) of the caching gateway == plain gateway. non-trivial = a history in which two different pool operations with equal selection text (the exported formatter's rendering, the historic cache key) are both requested; distinct by hash(history, pool)"
 	defer census.dump("C14")
+	mixIntrospection = true
+	defer func() { mixIntrospection = false }()
 	rapid.Check(t, func(t *rapid.T) {
 		c, labels := genCacheCase(t)
 		if c == nil {
